@@ -31,6 +31,9 @@ func genC18(r *R, n int, tier string, out *Out) {
 		if r.chance(0.05) {
 			ln = 0
 		}
+		if boosted() {
+			ln = 20 + r.Intn(100)
+		}
 		tag := ""
 		for j := 0; j < ln; j++ {
 			switch mode {
